@@ -191,6 +191,22 @@ def packet_cases(rng, thorough):
         q = g.ipv6_header(rng, 0, 8) + [58, 200] + rng.bytes(6)
         pm(1, g.v4_error(rng, 1, 0, q), "corpus:v6-ext-overrun", {"none": True})
         sh(1, q, "corpus:v6-ext-overrun")
+    # every quoting error type x every IPv4 header length (options) x the quoted datagram cut 0..9 bytes after its header
+    for ty, code in [(3, 1), (4, 0), (5, 1), (11, 0), (12, 0)]:
+        for ihl in range(5, 16):
+            for tail in range(0, 10):
+                req = g.echo(8, 77, 5, rng.bytes(8))
+                q = g.ipv4_header(rng, 1, len(req), ihl) + req[:tail]
+                pm(0, g.v4_error(rng, ty, code, q), "v4-error-quoted-boundary")
+    for ty, code in [(1, 0), (2, 0), (3, 0), (4, 1)]:
+        for chain in ([], [0], [60], [43, 60], [0, 44]):
+            for tail in range(0, 10):
+                req6 = g.echo(128, 77, 5, rng.bytes(8))
+                exts = []
+                for i, k in enumerate(chain):
+                    exts += g.v6_ext(rng, k, chain[i + 1] if i + 1 < len(chain) else 58)
+                q = g.ipv6_header(rng, chain[0] if chain else 58, len(exts) + len(req6)) + exts + req6[:tail]
+                pm(1, g.v4_error(rng, ty, code, q), "v6-error-quoted-boundary")
     # truncations and mutations
     base4 = g.v4_error(rng, 3, 1, g.ipv4_header(rng, 1, 16, 6) + g.echo(8, 7, 9, rng.bytes(8)))
     base6 = g.v4_error(rng, 1, 0, g.ipv6_header(rng, 0, 24) + g.v6_ext(rng, 0, 44, 6) + g.v6_ext(rng, 44, 58)
